@@ -188,3 +188,25 @@ def build_runnable(r, g):
 
 def batch(shape, dtype, g, bsz=3, mag=1.0):
     return gen.clamp_finite(torch.randn((bsz,) + tuple(shape), generator=g, dtype=torch.float64) * mag, dtype)
+
+
+# ----------------------------------------------------------------------------- user-supplied range optimizers
+
+def custom_optimizer(qtype):
+    """a user subclass of the exported optimizer base classes that chooses OTHER scales than the default one (a clipping
+    optimizer): whatever quantizes the weights of a module created with it must use it, dynamically and on freeze"""
+    from optimum.quanto import AbsmaxOptimizer, AffineOptimizer, MaxOptimizer, SymmetricOptimizer
+
+    if qtype.bits == 8:
+        class ClippedAbsmax(SymmetricOptimizer):
+            def optimize(self, base, bits, axis=None):
+                return (AbsmaxOptimizer().optimize(base, bits, axis) * 0.75).to(base.dtype)
+
+        return ClippedAbsmax()
+
+    class ShrunkRange(AffineOptimizer):
+        def optimize(self, base, bits, axis):
+            scale, zeropoint = MaxOptimizer().optimize(base, bits, axis)
+            return (scale * 0.75).to(base.dtype), zeropoint
+
+    return ShrunkRange()
